@@ -79,12 +79,12 @@ package unixsocket
 
 //@ func pkg/unixsocket.NewSocket props C19
 //@   arith int
-//@   assigns nothing
+//@   assigns FD.cloexec
 //@   ensures result.1 == nil ==> result.0 != nil && result.0.UnixConn != nil && len(result.0.recvBuff) == 4096
 
 //@ func pkg/unixsocket.NewSocketPair props C19
 //@   arith int
-//@   assigns FD.closed
+//@   assigns FD.closed, FD.cloexec
 //@   ensures result.2 == nil ==> result.0 != nil && result.0.UnixConn != nil && result.1 != nil && result.1.UnixConn != nil
 //@ func pkg/unixsocket.(*Socket).SetPassCred
 //@   trusted "setsockopt(SO_PASSCRED) through SyscallConn().Control (closure over the raw descriptor)"
